@@ -4,6 +4,10 @@
 
 package mtu
 
+// C19: the configured MTU can be honoured on the wire (option 26 is a 16-bit value): a value
+// outside 0..65535 must be rejected at start-up, not truncated
+//@ plugin-invariant[setup4,Handler4] 0 <= mtu && mtu <= 65535
+
 //@ func Handler4
 //@   implements handler.Handler4
 //@   modifies everything
